@@ -3,7 +3,7 @@
 patch=$1; shift
 cd /repo && git diff --quiet || { echo "repo dirty"; exit 2; }
 git -C /repo apply "$patch" || { echo "patch does not apply"; exit 2; }
-trap 'git -C /repo checkout -- . ; git -C /repo clean -fdq tests 2>/dev/null' EXIT
+trap 'git -C /repo checkout -- . ; git -C /repo clean -fdq tests 2>/dev/null; (cd /verif/harness && cargo build --bin vcheck >/dev/null 2>&1)' EXIT
 if [ -z "$SKIP_BASELINE" ]; then
   (cd /repo && cargo test --offline --tests 2>&1 | grep -E "^test result" | awk '{p+=$4; f+=$6} END {print "baseline passed=" p " failed=" f}')
 fi
